@@ -24,6 +24,8 @@ type Actor struct {
 	Timeouts   []hotstuff.TimeoutMsg
 	ServeFetch bool
 	ServeFrom  hotstuff.View // blocks below this view are withheld from fetches
+	ServeEvery int               // > 1: only every ServeEvery-th block request is answered (the first ones of a burst go unanswered)
+	fetchSeen  int
 	Twin       map[hotstuff.Hash]*hotstuff.Block // second blocks that hash like a proposal of the actor: served instead of it
 	AmbiguousProposals int
 	ambSeq     int
